@@ -2252,3 +2252,357 @@ Proof.
   split; [eexists; split; [vm_compute; reflexivity|split; reflexivity]|].
   split; vm_compute; reflexivity.
 Qed.
+
+(** * History independence: after a reconcile of every pod the grouper-owned part of the PodGroups is a
+      function of the workload, whatever happened before *)
+
+(** ** the boolean comparison used by the monitor is the relation of the theorem *)
+Lemma opt_eqb_eq : forall A (e : A -> A -> bool), (forall x y, e x y = true -> x = y) ->
+                                                  forall a b, opt_eqb e a b = true -> a = b.
+Proof. intros A e H [x|] [y|] E; cbn in E; try discriminate; [now rewrite (H _ _ E)|reflexivity]. Qed.
+Lemma list_eqb_eq : forall A (e : A -> A -> bool), (forall x y, e x y = true -> x = y) ->
+                                                   forall a b, list_eqb e a b = true -> a = b.
+Proof.
+  intros A e H a. induction a as [|x r IH]; intros [|y s] E; cbn in E; try discriminate; [reflexivity|].
+  apply andb_true_iff in E as [E1 E2]. now rewrite (H _ _ E1), (IH _ E2).
+Qed.
+Lemma topo_eqb_eq : forall a b, topo_eqb a b = true -> a = b.
+Proof.
+  intros [a1 a2 a3] [b1 b2 b3]. unfold topo_eqb. cbn. rewrite !andb_true_iff, !String.eqb_eq.
+  intros [[-> ->] ->]. reflexivity.
+Qed.
+Lemma subgroup_eqb_eq : forall a b, subgroup_eqb a b = true -> a = b.
+Proof.
+  intros [n1 m1 p1] [n2 m2 p2]. unfold subgroup_eqb. cbn. rewrite !andb_true_iff, String.eqb_eq, Z.eqb_eq.
+  intros [[-> ->] H]. f_equal. revert H. apply opt_eqb_eq. intros x y. apply String.eqb_eq.
+Qed.
+Lemma owner_ref_eqb_eq : forall a b, owner_ref_eqb a b = true -> a = b.
+Proof.
+  intros [a1 a2 a3 a4 a5] [b1 b2 b3 b4 b5]. unfold owner_ref_eqb. cbn. rewrite !andb_true_iff, !String.eqb_eq.
+  intros [[[[-> ->] ->] ->] ->]. reflexivity.
+Qed.
+
+Lemma oview_eqb_spec : forall a b, oview_eqb a b = true <-> a = b.
+Proof.
+  intros [a1 a2 a3 a4 a5 a6] [b1 b2 b3 b4 b5 b6]. unfold oview_eqb. cbn. split.
+  - rewrite !andb_true_iff, Z.eqb_eq, !String.eqb_eq. intros [[[[[-> ->] ->] H4] H5] H6].
+    rewrite (topo_eqb_eq _ _ H5), (list_eqb_eq _ _ owner_ref_eqb_eq _ _ H6).
+    rewrite (opt_eqb_eq _ _ (list_eqb_eq _ _ subgroup_eqb_eq) _ _ H4). reflexivity.
+  - intros H. inversion H; subst.
+    rewrite Z.eqb_refl, !String.eqb_refl, topo_eqb_refl. cbn.
+    rewrite (opt_eqb_refl _ (list_eqb subgroup_eqb)) by (apply list_eqb_refl, subgroup_eqb_refl).
+    rewrite (list_eqb_refl _ owner_ref_eqb) by apply owner_ref_eqb_refl. reflexivity.
+Qed.
+
+Lemma keys_agree_spec : forall skip fresh hist,
+    keys_agree skip fresh hist = true
+    <-> (forall k v, ~ In k skip -> mget k fresh = Some v -> mget k hist = Some v).
+Proof.
+  intros skip fresh hist. unfold keys_agree. change (match fresh with None => [] | Some l => l end) with (or_nil fresh).
+  split.
+  - intros H k v Hs Hk. rewrite forallb_forall in H. rewrite mget_or_nil in Hk.
+    specialize (H (k, v) (lookup_some_in _ _ _ Hk)). cbn [fst] in H. apply orb_true_iff in H as [H|H].
+    + apply existsb_exists in H as [x [Hin Hx]]. apply String.eqb_eq in Hx. subst. contradiction.
+    + rewrite Hk in H. destruct (mget k hist) as [w|]; cbn in H; [|discriminate].
+      apply String.eqb_eq in H. now subst.
+  - intros H. apply forallb_forall. intros [k v0] Hin. cbn [fst].
+    destruct (existsb (String.eqb k) skip) eqn:Ex; [reflexivity|]. cbn [orb].
+    destruct (in_lookup_some _ _ _ Hin) as [v' Hv']. rewrite Hv'.
+    rewrite (H k v'); [cbn; apply String.eqb_refl| |now rewrite mget_or_nil].
+    intros Hs. assert (existsb (String.eqb k) skip = true) as Ht; [|congruence].
+    apply existsb_exists. exists k. split; [assumption|apply String.eqb_refl].
+Qed.
+
+(** the stored PodGroup [hist] agrees with the PodGroup [fresh] of a fresh run on the grouper-owned part *)
+Definition owned_agree (cfg : config) (fresh hist : pg) : Prop :=
+  owned_view hist = owned_view fresh
+  /\ (forall k v, k <> c_queue_key cfg -> k <> c_nodepool_key cfg ->
+                  mget k (pg_labels fresh) = Some v -> mget k (pg_labels hist) = Some v)
+  /\ (forall k v, mget k (pg_annots fresh) = Some v -> mget k (pg_annots hist) = Some v).
+
+Theorem owned_agreeb_spec : forall cfg fresh hist, owned_agreeb cfg fresh hist = true <-> owned_agree cfg fresh hist.
+Proof.
+  intros cfg fresh hist. unfold owned_agreeb, owned_agree.
+  rewrite !andb_true_iff, oview_eqb_spec, !keys_agree_spec. split.
+  - intros [[H1 H2] H3]. split; [exact H1|]. split.
+    + intros k v Hq Hn. apply H2. cbn. intuition congruence.
+    + intros k v. apply H3. cbn. tauto.
+  - intros [H1 [H2 H3]]. split; [split; [exact H1|]|].
+    + intros k v Hs. apply H2; intros ->; apply Hs; cbn; auto.
+    + intros k v _. apply H3.
+Qed.
+
+(** ** what one ApplyToCluster leaves in its slot *)
+Lemma spec_eqb_true : forall a b,
+    spec_eqb a b = true ->
+    sp_min a = sp_min b /\ sp_prio a = sp_prio b /\ sp_preempt a = sp_preempt b
+    /\ sp_subgroups a = sp_subgroups b /\ sp_topo a = sp_topo b.
+Proof.
+  intros a b. unfold spec_eqb. rewrite !andb_true_iff, Z.eqb_eq, !String.eqb_eq.
+  intros [[[[[[[H1 _] H3] H4] _] _] H7] H8]. repeat split; try assumption.
+  - revert H7. apply opt_eqb_eq. apply list_eqb_eq. apply subgroup_eqb_eq.
+  - now apply topo_eqb_eq.
+Qed.
+
+Lemma apply_slot_owned : forall cfg m cur,
+    let g' := fst (apply_slot_with true pg_equal_v1 cfg m cur) in
+    owned_view g' = owned_view (norm (create_pg m))
+    /\ (forall k v, k <> c_queue_key cfg -> k <> c_nodepool_key cfg ->
+                    mget k (m_labels m) = Some v -> mget k (pg_labels g') = Some v)
+    /\ (forall k v, mget k (m_annots m) = Some v -> mget k (pg_annots g') = Some v).
+Proof.
+  intros cfg m cur g'. subst g'.
+  destruct (apply_slot_cases true pg_equal_v1 cfg m cur) as [[Hw _]|[old [-> [E Hr]]]].
+  - rewrite Hw. destruct cur as [old|].
+    + split; [|split].
+      * unfold owned_view. rewrite written_subgroups. reflexivity.
+      * intros k v Hq Hn Hk. rewrite mget_or_nil, or_nil_written_labels, lookup_copy_into.
+        rewrite ignored_labels_other by assumption. cbn [create_pg pg_labels]. now rewrite Hk.
+      * intros k v Hk. cbn [written norm pg_annots update_pg ignore_fields create_pg]. rewrite mget_norm_map.
+        destruct (m_annots m) as [a|]; [|discriminate]. rewrite copy_string_map_some. cbn [mget] in *.
+        now rewrite lookup_copy_into, Hk.
+    + cbn [written]. split; [reflexivity|]. split.
+      * intros k v _ _ Hk. cbn [norm pg_labels create_pg]. now rewrite mget_norm_map.
+      * intros k v Hk. cbn [norm pg_annots create_pg]. now rewrite mget_norm_map.
+  - rewrite Hr. cbn [fst]. unfold pg_equal_v1, pg_equal_with in E.
+    apply andb_true_iff in E as [E Ha]. apply andb_true_iff in E as [E Hl]. apply andb_true_iff in E as [Hs Ho].
+    apply spec_eqb_true in Hs. destruct Hs as (S1 & S2 & S3 & S4 & S5).
+    apply (list_eqb_eq _ _ owner_ref_eqb_eq) in Ho.
+    cbn [ignore_fields create_pg sp_min sp_prio sp_preempt sp_subgroups sp_topo pg_owners pg_annots andb] in *.
+    split; [|split].
+    + unfold owned_view. cbn [norm create_pg sp_min sp_prio sp_preempt sp_subgroups sp_topo pg_owners].
+      rewrite S1, S2, S3, S5, Ho. f_equal.
+      destruct (m_subgroups m) as [|x r]; destruct (sp_subgroups old) as [[|y l]|];
+        cbn [slice_empty andb norm_slice] in *; try reflexivity; try discriminate; now rewrite S4.
+    + intros k v Hq Hn Hk. rewrite ignore_fields_labels in Hl.
+      apply (proj1 (maps_equal_spec _ _) Hl). rewrite ignored_labels_other by assumption. exact Hk.
+    + intros k v Hk. destruct (m_annots m) as [a|]; [|discriminate].
+      apply (proj1 (maps_equal_spec _ _) Ha). exact Hk.
+Qed.
+
+(** ** the simulation: the run from the empty store against the run from any state *)
+Definition agrees_with_fresh (cfg : config) (fresh hist : state) : Prop :=
+  (forall n gf, get_pg n fresh = Some gf -> exists gh, get_pg n hist = Some gh /\ owned_agree cfg gf gh)
+  /\ (forall k x, get_asg k fresh = Some x -> get_asg k hist = Some x).
+
+Lemma agrees_with_fresh_empty : forall cfg s, agrees_with_fresh cfg empty_state s.
+Proof. intros cfg s. split; intros ? ? H; discriminate H. Qed.
+
+Lemma agrees_with_fresh_step : forall pf cfg cl p t s,
+    p_owners p <> [] -> agrees_with_fresh cfg t s ->
+    agrees_with_fresh cfg (rec_step annot_fix pf true pg_equal_v1 cfg cl p t) (rec_step annot_fix pf true pg_equal_v1 cfg cl p s).
+Proof.
+  intros pf cfg cl p t s Hown [Hp Ha].
+  pose proof (full_md_indep_all cfg cl p (get_asg (p_name p) t) (get_asg (p_name p) s) Hown) as Hmd.
+  unfold full_md in Hmd.
+  destruct (full_md_with annot_fix cfg cl p (get_asg (p_name p) t)) as [m|] eqn:Et; symmetry in Hmd.
+  - destruct (rec_step_some annot_fix pf true pg_equal_v1 cfg cl p t m Et) as [Pt [At _]].
+    destruct (rec_step_some annot_fix pf true pg_equal_v1 cfg cl p s m Hmd) as [Ps [As _]].
+    split.
+    + intros n gf. rewrite Pt, Ps. destruct (String.eqb_spec n (m_name m)) as [->|Hn]; [|apply Hp].
+      intros Hgf. inversion Hgf as [Hgf']. clear Hgf Hgf'. eexists. split; [reflexivity|].
+      destruct (apply_slot_owned cfg m (get_pg (m_name m) t)) as [Vt [Lt Nt]].
+      destruct (apply_slot_owned cfg m (get_pg (m_name m) s)) as [Vs [Ls Ns]].
+      split; [congruence|]. split.
+      * intros k v Hq Hnp Hk. destruct (mget k (m_labels m)) as [v'|] eqn:Em.
+        -- rewrite (Lt _ _ Hq Hnp Em) in Hk. inversion Hk; subst. now apply Ls.
+        -- destruct (get_pg (m_name m) t) as [oldf|] eqn:Eof.
+           ++ destruct (Hp _ _ Eof) as [oldh [Eoh [_ [HL _]]]]. rewrite Eoh.
+              rewrite apply_slot_other_labels in Hk by (rewrite ignored_labels_other; assumption).
+              rewrite apply_slot_other_labels by (rewrite ignored_labels_other; assumption).
+              now apply HL.
+           ++ exfalso. cbn [apply_slot_with fst norm pg_labels create_pg] in Hk.
+              rewrite mget_norm_map in Hk. congruence.
+      * intros k v Hk. destruct (mget k (m_annots m)) as [v'|] eqn:Em.
+        -- rewrite (Nt _ _ Em) in Hk. inversion Hk; subst. now apply Ns.
+        -- destruct (get_pg (m_name m) t) as [oldf|] eqn:Eof.
+           ++ destruct (Hp _ _ Eof) as [oldh [Eoh [_ [_ HA]]]]. rewrite Eoh.
+              rewrite apply_slot_other_annots in Hk by assumption.
+              rewrite apply_slot_other_annots by assumption.
+              now apply HA.
+           ++ exfalso. cbn [apply_slot_with fst norm pg_annots create_pg] in Hk.
+              rewrite mget_norm_map in Hk. congruence.
+    + intros k x. rewrite At, As. destruct (String.eqb k (p_name p)); [auto|apply Ha].
+  - unfold rec_step. rewrite (rec_step_none _ _ _ _ _ _ _ _ Et), (rec_step_none _ _ _ _ _ _ _ _ Hmd).
+    now split.
+Qed.
+
+Lemma agrees_with_fresh_runs : forall pf cfg cl ps t s,
+    (forall p, In p ps -> p_owners p <> []) -> agrees_with_fresh cfg t s ->
+    agrees_with_fresh cfg (runs (rec_step annot_fix pf true pg_equal_v1 cfg cl) ps t)
+                      (runs (rec_step annot_fix pf true pg_equal_v1 cfg cl) ps s).
+Proof.
+  intros pf cfg cl ps. induction ps as [|p ps IH]; intros t s Hown H; [exact H|].
+  cbn. apply IH; [intros q Hq; apply Hown; now right|].
+  apply agrees_with_fresh_step; [apply Hown; now left|exact H].
+Qed.
+
+(** from ANY state: after the reconciles [ps] the store agrees with the store the same reconciles build from
+    nothing. The state [s] is arbitrary - it stands for every history. *)
+Theorem history_independent_any_state : forall cfg cl ps s,
+    (forall p, In p ps -> p_owners p <> []) ->
+    agrees_with_fresh cfg (run cfg cl (map EvReconcile ps) empty_state) (run cfg cl (map EvReconcile ps) s).
+Proof.
+  intros cfg cl ps s Hown. unfold run. rewrite !run_reconciles_is_runs.
+  apply agrees_with_fresh_runs; [exact Hown|apply agrees_with_fresh_empty].
+Qed.
+
+Lemma recs_with_reconcile : forall cfg cl ps s, recs_with reconcile cfg cl ps s = run cfg cl (map EvReconcile ps) s.
+Proof.
+  intros cfg cl ps. induction ps as [|p ps IH]; intros s; [reflexivity|].
+  exact (IH (fst (reconcile cfg cl p s))).
+Qed.
+
+(** the statement for a reconciler [rc]: any history [hs] from any cluster and state - reconciles, foreign
+    updates, edits of the owner objects, overwritten and deleted PodGroups -, then the reconciles [ps] under
+    the final owner objects *)
+Definition history_independent_statement (rc : config -> list obj -> pod -> state -> state * Z) : Prop :=
+  forall cfg cl0 s0 hs ps,
+    (forall p, In p ps -> p_owners p <> []) ->
+    let cs := hrun_with rc cfg hs (cl0, s0) in
+    agrees_with_fresh cfg (recs_with rc cfg (fst cs) ps empty_state) (recs_with rc cfg (fst cs) ps (snd cs)).
+
+Theorem history_independent : history_independent_statement reconcile.
+Proof.
+  intros cfg cl0 s0 hs ps Hown cs. rewrite !recs_with_reconcile. now apply history_independent_any_state.
+Qed.
+
+Theorem history_independent_run : forall cfg cl0 s0 hs ps,
+    (forall p, In p ps -> p_owners p <> []) ->
+    let cl_final := fst (hrun cfg hs (cl0, s0)) in
+    let s_hist := snd (hrun cfg hs (cl0, s0)) in
+    agrees_with_fresh cfg (run cfg cl_final (map EvReconcile ps) empty_state)
+                      (run cfg cl_final (map EvReconcile ps) s_hist).
+Proof. intros cfg cl0 s0 hs ps Hown cl_final s_hist. now apply history_independent_any_state. Qed.
+
+(** ... in particular the PodGroup of every reconciled pod exists afterwards (a deleted one is back) and the pod
+    is assigned to it *)
+Lemma pg_stays : forall af pf sg eq cfg cl p s n,
+    get_pg n s <> None -> get_pg n (rec_step af pf sg eq cfg cl p s) <> None.
+Proof.
+  intros af pf sg eq cfg cl p s n H.
+  destruct (full_md_with af cfg cl p (get_asg (p_name p) s)) as [m|] eqn:E.
+  - destruct (rec_step_some af pf sg eq cfg cl p s m E) as [P _]. rewrite P.
+    destruct (String.eqb n (m_name m)); [discriminate|exact H].
+  - unfold rec_step. now rewrite (rec_step_none _ _ _ _ _ _ _ _ E).
+Qed.
+
+Theorem podgroup_restored : forall cfg cl ps s p a m,
+    In p ps -> p_owners p <> [] -> full_md cfg cl p a = Some m ->
+    get_pg (m_name m) (run cfg cl (map EvReconcile ps) s) <> None.
+Proof.
+  intros cfg cl ps s p a m Hin Hown Hm. unfold run. rewrite run_reconciles_is_runs. revert s.
+  induction ps as [|q ps IH]; intros s; [contradiction|]. cbn. destruct Hin as [->|Hin]; [|now apply IH].
+  assert (get_pg (m_name m) (rec_step annot_fix patch_fix ignore_sg pg_equal cfg cl p s) <> None) as H0.
+  { rewrite (full_md_indep_all cfg cl p a (get_asg (p_name p) s) Hown) in Hm.
+    destruct (rec_step_some annot_fix patch_fix ignore_sg pg_equal cfg cl p s m Hm) as [P _].
+    rewrite P, String.eqb_refl. discriminate. }
+  clear IH. revert H0. generalize (rec_step annot_fix patch_fix ignore_sg pg_equal cfg cl p s). clear s.
+  induction ps as [|q ps IH]; intros s H0; [exact H0|]. cbn. apply IH. now apply pg_stays.
+Qed.
+
+(** ** what the call of ApplyToCluster for already assigned pods is for *)
+Definition ex_hcfg : config :=
+  {| c_queue_key := "kai.scheduler/queue"; c_nodepool_key := "kai.scheduler/node-pool";
+     c_prio_classes := ["train"; "inference"]; c_defaults := CmNone; c_forbidden := [] |}.
+(** the StatefulSet after an edit: priority class, preemptibility, a user label, a topology constraint *)
+Definition ex_sts_edited : obj :=
+  {| o_gvk := mk_gvk "apps" "v1" "StatefulSet"; o_name := "web"; o_uid := "u-sts";
+     o_labels := [("kai.scheduler/queue", "team-a"); ("priorityClassName", "inference");
+                  ("kai.scheduler/preemptibility", "non-preemptible"); ("tier", "gold")];
+     o_annots := [("kai.scheduler/topology", "topo-1"); ("kai.scheduler/topology-required-placement", "rack")];
+     o_owners := []; o_tom := "tom-web" |}.
+Definition ex_tampered : pg :=
+  {| pg_labels := Some [("kai.scheduler/queue", "team-a")]; pg_annots := Some [(tom_key, "hijacked")]; pg_owners := [];
+     sp_min := 7%Z; sp_queue := "team-a"; sp_prio := "build"; sp_preempt := ""; sp_mark := None; sp_backoff := None;
+     sp_subgroups := None; sp_topo := {| t_preferred := ""; t_required := ""; t_topology := "" |} |}.
+Definition ex_first_round : list hevent := [HEv (EvReconcile (ex_pod "0")); HEv (EvReconcile (ex_pod "1"))].
+Definition ex_hist_edit : list hevent := (ex_first_round ++ [HOwners [ex_sts_edited]])%list.
+Definition ex_hist_tamper : list hevent := (ex_first_round ++ [HTamper ex_pg_name ex_tampered])%list.
+Definition ex_hist_delete : list hevent := (ex_first_round ++ [HDelete ex_pg_name])%list.
+Definition ex_again : list pod := [ex_pod "1"; ex_pod "0"; ex_pod "0"; ex_pod "1"].
+
+(** the final store of a history followed by the reconciles [ex_again], and of the fresh run *)
+Definition ex_hist_end (rc : config -> list obj -> pod -> state -> state * Z) (hs : list hevent) : state :=
+  let cs := hrun_with rc ex_hcfg hs ([ex_sts], empty_state) in recs_with rc ex_hcfg (fst cs) ex_again (snd cs).
+Definition ex_fresh_end (rc : config -> list obj -> pod -> state -> state * Z) (hs : list hevent) : state :=
+  let cs := hrun_with rc ex_hcfg hs ([ex_sts], empty_state) in recs_with rc ex_hcfg (fst cs) ex_again empty_state.
+Definition ex_pg_fields (s : state) : option (Z * string * string * string * list owner_ref) :=
+  match get_pg ex_pg_name s with
+  | Some g => Some (sp_min g, sp_prio g, sp_preempt g, t_topology (sp_topo g), pg_owners g)
+  | None => None
+  end.
+Definition ex_agrees (rc : config -> list obj -> pod -> state -> state * Z) (hs : list hevent) : bool :=
+  match get_pg ex_pg_name (ex_fresh_end rc hs), get_pg ex_pg_name (ex_hist_end rc hs) with
+  | Some gf, Some gh => owned_agreeb ex_hcfg gf gh
+  | _, _ => false
+  end.
+Definition ex_sts_ref : owner_ref :=
+  {| w_group := "apps"; w_version := "v1"; w_kind := "StatefulSet"; w_name := "web"; w_uid := "u-sts" |}.
+
+(** the code as it is repairs all three; the early return leaves the PodGroup as the history left it *)
+Lemma early_return_depends_on_history :
+  (* the owner is edited after both pods were assigned *)
+  ex_pg_fields (ex_fresh_end reconcile ex_hist_edit) = Some (1%Z, "inference", "non-preemptible", "topo-1", [ex_sts_ref])
+  /\ ex_pg_fields (ex_hist_end reconcile ex_hist_edit) = Some (1%Z, "inference", "non-preemptible", "topo-1", [ex_sts_ref])
+  /\ ex_agrees reconcile ex_hist_edit = true
+  /\ ex_pg_fields (ex_fresh_end reconcile_early_return ex_hist_edit) = Some (1%Z, "inference", "non-preemptible", "topo-1", [ex_sts_ref])
+  /\ ex_pg_fields (ex_hist_end reconcile_early_return ex_hist_edit) = Some (1%Z, "train", "", "", [ex_sts_ref])
+  /\ ex_agrees reconcile_early_return ex_hist_edit = false
+  (* minMember, priority class, owner reference and a computed annotation of the PodGroup are overwritten *)
+  /\ ex_pg_fields (ex_hist_end reconcile ex_hist_tamper) = Some (1%Z, "train", "", "", [ex_sts_ref])
+  /\ ex_agrees reconcile ex_hist_tamper = true
+  /\ ex_pg_fields (ex_hist_end reconcile_early_return ex_hist_tamper) = Some (7%Z, "build", "", "", [])
+  /\ ex_agrees reconcile_early_return ex_hist_tamper = false
+  (* the PodGroup is deleted *)
+  /\ ex_agrees reconcile ex_hist_delete = true
+  /\ get_pg ex_pg_name (ex_hist_end reconcile_early_return ex_hist_delete) = None
+  /\ get_asg "web-0" (ex_hist_end reconcile_early_return ex_hist_delete) = Some ex_pg_name
+  /\ get_pg ex_pg_name (ex_fresh_end reconcile_early_return ex_hist_delete) <> None.
+Proof. repeat split; try (vm_compute; reflexivity). vm_compute. discriminate. Qed.
+
+Theorem early_return_refuted : ~ history_independent_statement reconcile_early_return.
+Proof.
+  intros H.
+  specialize (H ex_hcfg [ex_sts] empty_state ex_hist_delete ex_again).
+  assert (forall p, In p ex_again -> p_owners p <> []) as Hown.
+  { intros p Hp. cbn in Hp. destruct Hp as [<-|[<-|[<-|[<-|[]]]]]; discriminate. }
+  destruct (H Hown) as [Hp _].
+  destruct (get_pg ex_pg_name (ex_fresh_end reconcile_early_return ex_hist_delete)) as [gf|] eqn:E.
+  - destruct (Hp ex_pg_name gf E) as [gh [Hgh _]].
+    assert (get_pg ex_pg_name (ex_hist_end reconcile_early_return ex_hist_delete) = None) as Hn by (vm_compute; reflexivity).
+    unfold ex_hist_end in Hn. rewrite Hn in Hgh. discriminate.
+  - revert E. vm_compute. discriminate.
+Qed.
+
+(** ** the hypothesis "the pod has an owner reference" is needed: a pod without owner is skipped once it carries
+       the pod-group annotation (isOrphanPodWithPodGroup), the grouper's own annotation included *)
+Definition history_independent_unrestricted (rc : config -> list obj -> pod -> state -> state * Z) : Prop :=
+  forall cfg cl0 s0 hs ps,
+    let cs := hrun_with rc cfg hs (cl0, s0) in
+    agrees_with_fresh cfg (recs_with rc cfg (fst cs) ps empty_state) (recs_with rc cfg (fst cs) ps (snd cs)).
+
+Definition ex_bare : pod :=
+  {| p_name := "solo"; p_uid := "u-solo"; p_labels := []; p_annots := []; p_prio := ""; p_owners := []; p_tom := "tom-solo" |}.
+Definition ex_bare_pg := "pg-solo-u-solo".
+Definition ex_bare_hist : list hevent := [HEv (EvReconcile ex_bare); HDelete ex_bare_pg].
+
+Lemma ownerless_pod_frozen :
+  let cs := hrun ex_cfg ex_bare_hist ([], empty_state) in
+  let hist := run ex_cfg [] (map EvReconcile [ex_bare; ex_bare]) (snd cs) in
+  let fresh := run ex_cfg [] (map EvReconcile [ex_bare; ex_bare]) empty_state in
+  get_pg ex_bare_pg (snd (hrun ex_cfg [HEv (EvReconcile ex_bare)] ([], empty_state))) <> None
+  /\ get_pg ex_bare_pg fresh <> None
+  /\ get_pg ex_bare_pg hist = None
+  /\ get_asg "solo" hist = Some ex_bare_pg.
+Proof. cbv zeta. repeat split; try (vm_compute; reflexivity); vm_compute; discriminate. Qed.
+
+Theorem history_independent_unrestricted_refuted : ~ history_independent_unrestricted reconcile.
+Proof.
+  intros H. specialize (H ex_cfg [] empty_state ex_bare_hist [ex_bare; ex_bare]). cbv zeta in H.
+  destruct H as [Hp _].
+  destruct (get_pg ex_bare_pg (recs_with reconcile ex_cfg (fst (hrun_with reconcile ex_cfg ex_bare_hist ([], empty_state)))
+                                         [ex_bare; ex_bare] empty_state)) as [gf|] eqn:E.
+  - destruct (Hp ex_bare_pg gf E) as [gh [Hgh _]]. revert Hgh. vm_compute. discriminate.
+  - revert E. vm_compute. discriminate.
+Qed.
